@@ -81,6 +81,13 @@ def loc_key(draw, ixrec, allow_scalar=True):
             return {'t': 'label', 'v': labels[draw(st.integers(0, n - 1))]}
     if t == 'list':
         pos = draw(st.lists(st.integers(0, max(n - 1, 0)), max_size=n, unique=True)) if n else []
+        if n >= 3 and draw(st.integers(0, 3)) == 0:
+            # labels of one contiguous range of positions with a single adjacent swap
+            a = draw(st.integers(0, n - 3))
+            b = draw(st.integers(a + 3, n))
+            pos = list(range(a, b))
+            i = draw(st.integers(0, len(pos) - 2))
+            pos[i], pos[i + 1] = pos[i + 1], pos[i]
         return {'t': 'list', 'v': [labels[p] for p in pos], 'as': draw(st.sampled_from(['list', 'array', 'index', 'series']))}
     if t == 'slice':
         i = draw(st.one_of(st.none(), st.integers(0, n - 1)))
@@ -546,6 +553,61 @@ def tag_frame(case, f):
     return None
 
 
+def enum_slices(tier):
+    """Every positional slice over start/stop in [-n-2, n+2] (and None) and step in {None, 1, 2, 3, -1, -2, -3}
+    for n <= 5 (quick) / 6 (thorough), applied to a Series, to Frame rows and to Frame columns (one wide block
+    plus a 1-D block, so descending slices cross a block boundary)."""
+    top = 5 if tier == 'quick' else 6
+    for n in range(0, top + 1):
+        bounds = [None] + list(range(-n - 2, n + 3))
+        for start in bounds:
+            for stop in bounds:
+                for step in (None, 1, 2, 3, -1, -2, -3):
+                    for target in ('series', 'rows', 'cols'):
+                        yield {'n': n, 'slice': (start, stop, step), 'target': target}
+
+
+def check_slice(case):
+    n = case['n']
+    sl = slice(*case['slice'])
+    pos = list(range(n))[sl]
+    if case['target'] == 'series':
+        s = sf.Series(np.arange(n) * 10, index=['r%d' % i for i in range(n)])
+        r = lib(lambda: s.iloc[sl])
+        if isinstance(r, Raised):
+            raise Failure('raised:%s' % r.cls, 'Series.iloc[%r] (n=%d) raised %r' % (sl, n, r.exc), r.where)
+        obs.expect_series(r, ['r%d' % i for i in pos], [i * 10 for i in pos], 'Series.iloc[%r]' % (sl,))
+    elif case['target'] == 'rows':
+        f = sf.Frame(np.arange(n * 2).reshape(n, 2), index=['r%d' % i for i in range(n)], columns=('a', 'b'))
+        r = lib(lambda: f.iloc[sl])
+        if isinstance(r, Raised):
+            raise Failure('raised:%s' % r.cls, 'Frame.iloc[%r] (n=%d) raised %r' % (sl, n, r.exc), r.where)
+        obs.expect_frame(r, ['r%d' % i for i in pos], ['a', 'b'], [[i * 2 for i in pos], [i * 2 + 1 for i in pos]], 'Frame.iloc[%r]' % (sl,))
+    else:
+        blocks = []
+        if n >= 1:
+            w = max(n - 1, 1)
+            blocks.append(np.arange(2 * w).reshape(2, w))
+            if n - w:
+                blocks.append(np.array([100.5, 200.5]))
+        f = sf.Frame(sf.TypeBlocks.from_blocks([gen.freeze(b) for b in blocks], shape_reference=(2, n)), columns=['c%d' % j for j in range(n)], own_data=True)
+        cols = gen.block_columns(blocks)
+        r = lib(lambda: f.iloc[:, sl])
+        if isinstance(r, Raised):
+            raise Failure('raised:%s' % r.cls, 'Frame.iloc[:, %r] (m=%d) raised %r' % (sl, n, r.exc), r.where)
+        obs.expect_frame(r, [0, 1], ['c%d' % j for j in pos], [arr_list(cols[j]) for j in pos], 'Frame.iloc[:, %r]' % (sl,), dtypes=[cols[j].dtype for j in pos])
+    s0, s1, st_ = case['slice']
+    nt = bool(pos) and (st_ is not None and st_ < 0 or (s0 is not None and abs(s0) > n) or (s1 is not None and abs(s1) > n))
+    return {'nt': nt, 'cls': ['exhaustive-slice:' + case['target']]}
+
+
+EXHAUSTIVE = {'quick': False, 'thorough': False}
+
+
+def extra_evidence(tier):
+    return {'exhaustive_subdomain': 'slices_exhaustive: every positional slice with start/stop in [-n-2, n+2] or None and step in {None,1,2,3,-1,-2,-3} for n <= %d on Series, Frame rows, Frame columns' % (5 if tier == 'quick' else 6)}
+
+
 SUBS = [
     Sub('frame', frame_cases(), check_frame, quick=2500, thorough=64000, tag=tag_frame,
         rule='Frame iloc/loc/getitem vs list model'),
@@ -553,4 +615,6 @@ SUBS = [
         rule='Series iloc/loc/getitem vs list model'),
     Sub('bloc', bloc_cases(), check_bloc, quick=500, thorough=8000,
         rule='Frame.bloc vs {(row,col): value} mapping'),
+    Sub('slices_exhaustive', None, check_slice, quick=0, thorough=0, enum=enum_slices,
+        rule='complete enumeration of positional slices on small axes (exhaustive sub-domain)'),
 ]
